@@ -592,6 +592,29 @@ def tower_history(g, rng, queries=()):
     u0 = u1 reachable only through a decision: congruence closure merges the towers level by level and the conflict
     has a one-literal explanation that crosses every level"""
     tb = g.tb
+    if rng.random() < 0.35:
+        # the Boolean counterpart: L_i = (and l_i L_{i-1} R_{i-1}), R_i = (and r_i L_{i-1} R_{i-1}), and the negation of
+        # their conjunction: 2n+2 variables, 2n shared conjunctions, 3^n paths
+        n = rng.randint(24, 40)
+        ls, rs = [], []
+        for i in range(n + 1):
+            for pref, acc in (("dl", ls), ("dr", rs)):
+                nm = "%s%d" % (pref, i)
+                if nm not in g.funs:
+                    g._declare(nm, (), BOOL)
+                acc.append(tb.var(nm, BOOL))
+        chain = [(["DL0", "DR0"], [ls[0], rs[0]])]
+        for i in range(1, n + 1):
+            pl, pr = tb.var("DL%d" % (i - 1), BOOL), tb.var("DR%d" % (i - 1), BOOL)
+            chain.append((["DL%d" % i, "DR%d" % i], [tb.app("and", [ls[i], pl, pr]), tb.app("and", [rs[i], pl, pr])]))
+        top = tb.app("and", [tb.var("DL%d" % n, BOOL), tb.var("DR%d" % n, BOOL)])
+        body = tb.app("not", [top]) if rng.random() < 0.7 else top
+        for names, vals in reversed(chain):
+            body = tb.let(names, vals, body)
+        cmds = [{"c": "assert", "t": body, "nm": "", "inner": []}, {"c": "check-sat"}]
+        if rng.random() < 0.4:
+            cmds = [{"c": "push", "n": 1}] + cmds + [{"c": "pop", "n": 1}, {"c": "check-sat"}]
+        return cmds
     if "g" not in g.funs:
         g._declare("g", ("U", "U"), "U")
     a, b = g.us[0], g.us[1]
